@@ -401,7 +401,7 @@ func main() {
 	rng := lib.NewRng(f.Seed)
 	out := lib.NewOut("C41", f)
 	out.Imports = "From Verif Require Import Model.Principal.\n"
-	out.Rule = "protobuf messages over fields 1..15 (plus a few huge field numbers): valid v2 proposals with repeats and shuffles, partial/v1 proposals, envelope count and size classes (0, 1, 16384, 16385 bytes, duplicates), nonce classes (missing, 0/15/17/32 bytes, overridden), principal fields with every other wire type incl. groups and reserved types, field soup, malformed stream (truncations, 10/11-byte varints, broken groups, lengths beyond the end, bit flips, overlong tags, random bytes) and group nesting at the recursion limit; Session obtained by proto.Unmarshal, or by SetUnknown when Unmarshal refuses the bytes; distinct = distinct (unknown bytes, result); non-trivial = the unknown region contains a field 6..12 or the call returned an error"
+	out.Rule = "protobuf messages over fields 1..15 (plus a few huge field numbers): valid v2 proposals with repeats and shuffles, partial/v1 proposals, envelope count and size classes (0, 1, 16384, 16385 bytes, duplicates with different AND with byte-identical payloads: adjacent, separated, 1-byte, empty, three copies, any field-12 occurrence repeated verbatim at a later position), nonce classes (missing, 0/15/17/32 bytes, overridden), principal fields with every other wire type incl. groups and reserved types, field soup, malformed stream (truncations, 10/11-byte varints, broken groups, lengths beyond the end, bit flips, overlong tags, random bytes) and group nesting at the recursion limit; Session obtained by proto.Unmarshal, or by SetUnknown when Unmarshal refuses the bytes; distinct = distinct (unknown bytes, result); non-trivial = the unknown region contains a field 6..12 or the call returned an error"
 
 	// the typed half of the function is dead for this descriptor: say so in evidence, fail loudly if not
 	fields := (&connect.Session{}).ProtoReflect().Descriptor().Fields()
@@ -466,6 +466,72 @@ func main() {
 	n := f.Count(1960)
 	for i := 0; i < n; i++ {
 		emit(g.message())
+	}
+	// a second field 12 whose bytes EQUAL the first: still a second envelope
+	for i := 0; i < f.Count(160); i++ {
+		fs := g.fullV2()
+		env := fs[len(fs)-1]
+		switch i % 8 {
+		case 0: // adjacent copies
+			fs = append(fs, env)
+		case 1: // separated by known and unknown fields
+			fs = append(fs, fBytes(1, g.text(4)), g.goodPrincipal(7), fI32(13, g.r.Bytes(4)), env)
+		case 2: // one-byte envelope, twice
+			env = fBytes(12, g.text(1))
+			fs[len(fs)-1] = env
+			fs = append(fs, g.goodPrincipal(10), env)
+		case 3: // empty envelope, twice
+			env = fBytes(12, nil)
+			fs[len(fs)-1] = env
+			fs = append(fs, env)
+		case 4: // three copies
+			fs = append(fs, env, fVarint(5, 9), env)
+		case 5: // copy first, everything else in between
+			fs = append([]field{env}, fs...)
+		case 6: // copies around a group and a shuffled middle
+			mid := g.shuffle(fs[:len(fs)-1])
+			fs = append(append([]field{env}, mid...), fGroup(14, fVarint(12, 1).raw), env)
+		default: // only the two envelopes and a nonce
+			fs = []field{env, fBytes(9, g.r.Bytes(16)), env}
+		}
+		emit(msg{join(fs), "envelope-duplicate-identical"})
+	}
+	// any message that already carries a field 12: repeat one occurrence verbatim at a random later position
+	for i := 0; i < f.Count(160); i++ {
+		var fs []field
+		var at []int
+		for tries := 0; tries < 50 && len(at) == 0; tries++ {
+			fs = nil
+			switch g.r.Intn(3) {
+			case 0:
+				fs = g.fullV2()
+			case 1: // soup that may hold field 12 with any wire type
+				for j := g.r.Range(2, 9); j > 0; j-- {
+					num := uint64(g.r.Pick(12, 12, 9, 6, 7, 5, 13, 1, 3))
+					if g.r.Chance(2, 3) && num >= 6 && num <= 12 {
+						fs = append(fs, g.goodPrincipal(num))
+					} else if f := g.anyField(num, 0); f.typ != 4 && f.typ <= 5 {
+						fs = append(fs, f)
+					}
+				}
+			default:
+				fs = g.shuffle(g.fullV2())
+			}
+			at = at[:0]
+			for j, f := range fs {
+				if f.num == 12 {
+					at = append(at, j)
+				}
+			}
+		}
+		if len(at) == 0 {
+			fs = g.fullV2()
+			at = []int{len(fs) - 1}
+		}
+		src := at[g.r.Intn(len(at))]
+		pos := g.r.Range(src+1, len(fs))
+		dup := append(append(append([]field{}, fs[:pos]...), fs[src]), fs[pos:]...)
+		emit(msg{join(dup), "field12-repeated-verbatim"})
 	}
 	// envelope size boundary: 16384 accepted, 16385 rejected
 	for i := 0; i < f.Count(6); i++ {
